@@ -737,7 +737,12 @@ def s_loops(draw, tier):
             "gseed": draw(A.seeds), "size": draw(st.sampled_from(sizes)), "combine": draw(st.sampled_from(["prod", "prod", "sum"])),
             "normalized": normalized, "autocomplete": draw(st.booleans()), "autoreduce": draw(st.booleans()),
             "grow_from": draw(st.sampled_from(["all", "all", "any"])), "strict_size": draw(st.integers(0, 3)) == 0,
-            "strip": draw(st.booleans()), "return_all": draw(st.booleans()), "share_info": draw(st.booleans())}
+            "strip": draw(st.booleans()), "return_all": draw(st.booleans()), "share_info": draw(st.booleans()),
+            # no gauging at all (the signature default None, or an empty dict): exact when the generalized loop is the whole
+            # network, i.e. on 2-connected graphs without tails - constructed there half of the time
+            "gauges": draw(st.sampled_from(["none", "empty"])) if (shape == "biconn" and kind == "gloop" and route != "norm"
+                                                                   and normalized != "global" and draw(st.booleans()))
+            else "converged"}
 
 
 def run_loops(case):
@@ -746,7 +751,14 @@ def run_loops(case):
     n, c = s.n, (len(desc["core"]) or 2)
     kind, route = case["kind"], case["route"]
     size = {"c": max(c, 3), "n": max(n, c, 3), "n+2": n + 2, "none": None}[case["size"]]
-    psi, g = converge_gauges(s.psi)
+    gmode = case.get("gauges", "converged")
+    if gmode != "converged" and not (desc["shape"] == "biconn" and kind == "gloop" and route != "norm"
+                                     and case["normalized"] != "global"):
+        gmode = "converged"
+    if gmode == "converged":
+        psi, g = converge_gauges(s.psi)
+    else:
+        psi, g = s.psi, (None if gmode == "none" else {})
     combine, normalized = case["combine"], case["normalized"]
     if normalized == "separate" and combine != "sum":
         combine = "sum"  # 'separate' is only defined for combine='sum'
@@ -754,8 +766,8 @@ def run_loops(case):
         normalized = True  # not an exact class for the single global factor (see s_loops)
     w0 = case["wheres"][0]
     info = dict(expo=bool(s.expo), route=kind + ":" + route, shape=desc["shape"], combine=combine, nmz=str(normalized), size=case["size"],
-                gt8=n > 8)
-    cls = base_cls(s, w0) + ["route=" + kind + ":" + route, "shape=" + desc["shape"], "size=" + case["size"], "combine=" + combine,
+                gt8=n > 8, gauges=gmode)
+    cls = base_cls(s, w0) + ["gauges=" + gmode, "route=" + kind + ":" + route, "shape=" + desc["shape"], "size=" + case["size"], "combine=" + combine,
                              f"normalized={normalized}", f"autocomplete={case['autocomplete']}", f"autoreduce={case['autoreduce']}",
                              "grow_from=" + case["grow_from"]]
     if route == "norm":
@@ -1544,7 +1556,7 @@ SUBCHECKS = [
                   "site or any two sites (adjacent or not: the cluster adds the connecting path); nt as RULE"),
     SubCheck("ag_loops", run_loops, s_loops, examples=(120, 3000), shards=(1, 4),
              rule="local_expectation_sloop_expand / _gloop_expand, their compute_* forms and norm_gloop_expand with converged "
-                  "gauges on: trees (`where` a site or an edge), unicyclic graphs (`where` on the cycle, loop size >= cycle), "
+                  "gauges (or, for gloops on tail-free 2-connected graphs, gauges=None / {}) on: trees (`where` a site or an edge), unicyclic graphs (`where` on the cycle, loop size >= cycle), "
                   "multi-loop cores with tails (`where` in the core, gloops >= core size) x combine x normalized flavours x "
                   "autocomplete / autoreduce / grow_from / strict_size; nt as RULE"),
     SubCheck("mps_local", run_mps_local, s_mps_local, examples=(150, 4000), shards=(1, 4),
